@@ -477,6 +477,15 @@ var scenarios = []scenario{
 			h.wg.Wait()
 			h.spawnExist(2, g, 0)
 		}},
+	// removing what was never there (a fresh graph: no subject is known to it) next to a reader and a writer: every
+	// early way out of the removal must leave the graph usable
+	{Name: "S9", Class: "S9:Remove-of-triples-never-stored|Exist|Add", Mode: explore.SleepSets, Hedge: true, OneCap: true,
+		Body: func(h *hctx, c int) {
+			_, g := freshGraph(0)
+			h.spawnUpdate(0, g, "rem", 0b0011)
+			h.spawnExist(1, g, 0)
+			h.spawnUpdate(2, g, "add", 0b0100)
+		}},
 	{Name: "S2", Class: "S2:RemoveBatch|Objects|Add", Mode: explore.SleepSets, Hedge: true, Initial: 0b0011,
 		Body: func(h *hctx, c int) {
 			_, g := freshGraph(0b0011)
